@@ -1073,6 +1073,10 @@ def workload(tier, seed):
     for cls in ("CNF", "OPB"):
         yield "long_lines", {"cls": cls}
         yield "header_values", {"cls": cls}
+        # every row count in a range (a fast path may start at any unremarkable size): a stride in quick, all in thorough
+        lo_hi = list(range(seed % 7, 2300, 7)) if quick else list(range(0, 5200))
+        for i in range(0, len(lo_hi), 60):
+            yield "block_sizes", {"cls": cls, "sizes": lo_hi[i:i + 60]}
         for sizes in ([[256, 4096, 8192], [8191, 8193, 16384], [65536]] if quick else
                       [[1 << k, (1 << k) + 1, (1 << k) - 1] for k in range(8, 18)] + [[3 << 12, 3 << 13, 5 << 13], [3 << 15, 1 << 18]]):
             yield "block_sizes", {"cls": cls, "sizes": sizes}
